@@ -184,9 +184,15 @@ def finish(pid, a, mod, results, inconclusive, t0, env, s7res=None):
     for m in getattr(mod, 'REQUIRED', []):
         if mon.get(m, 0) == 0:
             inconclusive.append('monitor %s recorded zero evaluations' % m)
+    # anchor coverage: the workload must have reached every anchored *file*; a single anchored function that is not
+    # executed (renamed or bypassed by a refactoring) is reported in the evidence but does not decide anything
+    byfile = collections.defaultdict(int)
     for k, n in (anchors.items() if results else []):
-        if len(n) == 0:
-            inconclusive.append('anchored mechanism %s was never executed' % k)
+        byfile[k.split(':')[0]] += len(n)
+    for f, n in byfile.items():
+        if n == 0:
+            inconclusive.append('no anchored mechanism of %s was executed by the workload' % f)
+    anchors_idle = sorted(k for k, n in anchors.items() if len(n) == 0)
     if crysp_path and os.path.realpath(crysp_path) != os.path.realpath(os.path.join(REPO, 'crysp')):
         inconclusive.append('crysp imported from %s, not from %s' % (crysp_path, REPO))
     # -- known findings -------------------------------------------------------------------
@@ -250,6 +256,7 @@ def finish(pid, a, mod, results, inconclusive, t0, env, s7res=None):
             'monitor_evaluations': dict(sorted(mon.items())),
             'monitor_failures': dict(sorted(monfail.items())),
             'anchors_executed_lines': {k: [len(anchors[k]), anchor_lines.get(k, 0)] for k in sorted(anchors)},
+            'anchors_not_executed': anchors_idle,
             'states_seen': {k: max(len(v), statecount.get(k, 0)) for k, v in states.items()},
             'exhaustive_subdomains': dict(sorted(exhaustive.items())),
             'exhaustive': False,
